@@ -1977,6 +1977,10 @@ def nested_calls(a: uint256, d: DynArray[uint256, 4]) -> uint256:
 ''')
 
 # ---------------------------------------------------------------- (28) fallback + selector table
+# Regression for "venom-sparse-empty-bucket-fallback-stack": with venom at gas/O3 the sparse selector table sent
+# empty buckets straight to the fallback block with the selector still on the stack, so `len(msg.data) >= 4` in
+# __default__ (CSE'd with the dispatcher's calldatasize check) was evaluated on the selector.  Probe with 5-byte
+# calldata whose selector falls into an empty bucket (e.g. 0x1234567800): `sel` must be 0x12345678 in every config.
 _add("fallback_selectors", '''
 event Fell:
     sender: indexed(address)
